@@ -1,12 +1,12 @@
 import CCV.Lemmas.TypeInfer
+import CCV.Lemmas.BroadcastAssoc
 /-
   C09 — type inference is sound for evaluation; well-typed programs never crash.
 
   Shape-level soundness of the model `CCV.TI.infer` (= `process_node`) against the documented
   semantics, for shapes of every rank, plus the two "evaluator loop stays in range" facts
-  (broadcasting, slicing).  C10's evaluator model (`Model/Ops.lean`) is not part of this workspace:
-  the value-level statement `hasType (eval op vals) t` is delivered by the correspondence oracle
-  (`check_type` of every node value), not by a theorem — hence the names `…_shape_sound`.
+  (broadcasting, slicing).  The value-level statements `hasType (evalOp op vals) t` are in
+  Proofs/C09Values.lean; the theorems here are about shapes — hence the names `…_shape_sound`.
 -/
 namespace CCV.C09
 open CCV CCV.TV CCV.TI
@@ -76,8 +76,8 @@ theorem broadcast_wf {s1 s2 r : List Nat} (h1 : ∀ d ∈ s1, 0 < d) (h2 : ∀ d
     | nil => exact hne rfl
     | cons a as => simp only [List.length_cons] at hl; split at hl <;> omega
 
-/-- associativity-compatibility of broadcasting (statement only — NOT proved in this round):
-    for positive dimensions the two bracketings accept the same triples and agree. -/
+/-- associativity-compatibility of broadcasting: for positive dimensions the two bracketings accept
+    the same triples and agree. -/
 def broadcast_assoc_Statement : Prop :=
   ∀ a b c : List Nat, (∀ d ∈ a, 0 < d) → (∀ d ∈ b, 0 < d) → (∀ d ∈ c, 0 < d) →
     (match broadcastShapes a b with
@@ -86,6 +86,14 @@ def broadcast_assoc_Statement : Prop :=
     (match broadcastShapes b c with
       | .ok bc => (broadcastShapes a bc).toOption
       | .error _ => none)
+
+/-- **broadcasting is associative** (all ranks, all positive dimensions): `(a·b)·c` and `a·(b·c)` are
+    accepted for the same triples and give the same shape — the type of `x + y + z` does not depend on
+    the bracketing (and neither does acceptance). -/
+theorem broadcast_assoc : broadcast_assoc_Statement := broadcastShapes_assoc
+
+example : broadcastShapes [3, 1] [4] = .ok [3, 4] ∧ broadcastShapes [3, 4] [2, 1, 1] = .ok [2, 3, 4] ∧
+    broadcastShapes [4] [2, 1, 1] = .ok [2, 1, 4] ∧ broadcastShapes [3, 1] [2, 1, 4] = .ok [2, 3, 4] := ⟨rfl, rfl, rfl, rfl⟩
 
 /-! ### slicing (GetSlice) -/
 
